@@ -79,7 +79,7 @@ def run(ctx):
         trace(ctx, b, "exh-und", ["mode=cases", "cases=" + fd["und"], "maps=1", "stride=%d" % (1 if thorough else 4)], "exh-und")
         trace(ctx, b, "exh-dir", ["mode=cases", "cases=" + fd["dir"], "maps=1", "stride=%d" % (2 if thorough else 8)], "exh-dir")
         trace(ctx, b, "exh-part", ["mode=cases", "cases=" + fd["part"], "maps=1", "stride=%d" % (1 if thorough else 3)], "exh-part")
-        trace(ctx, b, "random", ["mode=random", "count=%d" % (120 if thorough else 20), "maxn=40"], "random")
+        trace(ctx, b, "random", ["mode=random", "count=%d" % (80 if thorough else 20), "maxn=40"], "random")
 
     ctx.assumptions += [
         "TLC/SANY and the CommunityModules Json module are trusted",
